@@ -57,9 +57,21 @@ def validate(ctx, recs, dev, has_timeout, label):
         raise vlib.ToolError("trace validation aborted (%s %s):\n%s" % (r.violation, r.violated_name, "\n".join(r.trace[:40])))
     ctx.add_tlc("trace validation %s Dev=%s (%d connections)" % (label, sorted(dev), len(recs)), r)
     acc = set()
+    mon_ok = set()
     for line in r.raw_prints:
         if line.startswith('<<"ACC"'):
-            acc.add(int(line.split(",")[1].strip(" >")))
+            f = line.split(",")
+            acc.add(int(f[1].strip(" >")))
+            if len(f) < 3 or f[2].strip(" >") == "1":
+                mon_ok.add(int(f[1].strip(" >")))
+    # the server's own monitor events (beyond what C01 states): explained by the client's log but not by the monitor list
+    if not dev:
+        bad = sorted(acc - mon_ok)
+        if bad:
+            by_id = {x["id"]: x for x in recs}
+            ctx.drift("monitor-events", "%d connection(s) (%s) are explained by HttpConn but the server's monitor events differ from MonExpected; first: mon=%s"
+                      % (len(bad), label, json.dumps(by_id[bad[0]].get("mon"))[:300]),
+                      {"kind": "c01-monitor", "connections": [by_id[i] for i in bad[:3]]})
     return acc
 
 
@@ -227,6 +239,7 @@ def run(tier, replay):
 
     # ---- 4. "the matched route's CORS headers": spec/cors (builder-call sequences x requests, both runtimes) ----
     import c01_cors
+    # "the matched route's CORS headers" is part of what C01 states: a disagreement here gates C01
     c01_cors.run_part(ctx, tier)
 
     ctx.cov["rule"] = ("one evaluation = one real loopback connection (script x segmentation x runtime) whose client log was validated by TLC; "
